@@ -184,6 +184,42 @@ def rule_surv(ctx):
             r.violation(key, f.loc, f"{what}: the count of an index shared by both operands is "
                         "not the sum of both sides' counts, so an index on three or more tensors "
                         "(or also in the output) is dropped too early or kept forever")
+    # the move evaluator returns (legs, cost, size) that the tree caches verbatim: an
+    # index kept in the returned legs is an axis of the new tensor, so the same block
+    # that keeps it multiplies the returned size by its dimension
+    ev = ctx.p.try_func(C.ANNEAL, "compute_contracted_info")
+    if ev is not None:
+        rets = [n for n in walk_local(ev.node) if isinstance(n, ast.Return)
+                and isinstance(n.value, ast.Tuple) and len(n.value.elts) == 3
+                and all(isinstance(x, ast.Name) for x in n.value.elts)]
+        C.require(rets, "compute_contracted_info: return (legs, cost, size) not recognised")
+        L, Cst, S = (x.id for x in rets[0].value.elts)
+        key = ctx.key(ev, "C18-SURV", "kept-is-sized")
+        bad = None
+        n_keep = 0
+        for st in walk_local(ev.node):
+            if isinstance(st, ast.Assign) and any(isinstance(t, ast.Subscript) and isinstance(t.value, ast.Name)
+                                                  and t.value.id == L for t in st.targets):
+                n_keep += 1
+                par = ev.module.parents.get(st)
+                block = None
+                for fld in ("body", "orelse", "finalbody"):
+                    b = getattr(par, fld, None)
+                    if isinstance(b, list) and st in b:
+                        block = b
+                sized = block is not None and any(
+                    isinstance(x, ast.AugAssign) and isinstance(x.op, ast.Mult)
+                    and isinstance(x.target, ast.Name) and x.target.id == S for x in block)
+                if not sized:
+                    bad = st
+        C.require(n_keep >= 1, "compute_contracted_info: stores into the returned legs not found")
+        if bad is None:
+            r.ok(key, ev.loc, f"each of the {n_keep} places that keep an index also multiply the size by its dimension")
+        else:
+            r.violation(key, C.loc(ev, bad), f"`{C.unparse(bad)}` keeps an index in the returned legs without "
+                        f"multiplying `{S}` by its dimension in the same block: the size the tree caches for "
+                        "the new node (and write / max size / peak) is too small although the tensor "
+                        "really carries that axis")
     # leaf legs carry occurrence counts (the survival test compares them with the
     # global table): no constant may be substituted for a count
     tc = ctx.p.cls(C.CORE, "ContractionTree")
